@@ -48,7 +48,14 @@ RULE = ("(a) generate_motifs(3) and generate_motifs(4) compared IN FULL with the
         "as in (b): scripts 0-4 = small next to [2**63, 2**64) / small, int64 top, uint64 and beyond / all bands / "
         "negative next to [2**63, 2**64) / both sides of 2**63, every third hypergraph drawn in a script from numpy "
         "scalars); every "
-        "'observed' list is judged outside that process by exhaustive enumeration and by the model. "
+        "'observed' list is judged outside that process by exhaustive enumeration and by the model; "
+        "(e) the null-model arithmetic: 60 quick / 1500 thorough count tables (1-171 classes, 1-10 rounds, counts up to "
+        "2**40, every 5th undirected table all-equal = zero vector; directed tables with keys no round reported and "
+        "empty rounds) through utils.diff_sum / norm_vector / directed_diff_sum against the documented formula in exact "
+        "fractions and against the model (Model/C11Stats.lean, math.sqrt handed over), plus 2 / 16 seeded calls of "
+        "compute_motifs / compute_directed_motifs with runs_config_model=2 whose 'norm_delta' is recomputed from "
+        "their own 'observed' and 'config_model'; in (c) the model's classified node sets (dCounted) and the sum of "
+        "the census counts against the implementation's final visited dict. "
         "A case is distinct by (kind, order, canonical hyperedge list); non-trivial when at least 3 classes have a "
         "non-zero count")
 ASSUMPTIONS = ["integer node labels (Python ints of any magnitude; numpy integer scalars are read as the integers they "
@@ -1203,7 +1210,7 @@ def check_dhg(ctx, drv, sess, case):
     rank = {x: i for i, x in enumerate(univ)}
     a = hgxv.enc_lists([[rank[x] for x in e[0]] for e in E])
     b = hgxv.enc_lists([[rank[x] for x in e[1]] for e in E])
-    ans = ask(drv, [f"dcensus {n} {a} {b}"] + ([f"dsets {n} {a} {b}"] if ip is not None else []))
+    ans = ask(drv, [f"dcensus {n} {a} {b}"] + ([f"dsets {n} {a} {b}", f"dcounted {n} {a} {b}"] if ip is not None else []))
     try:
         mod = parse_dcensus(ans[0])
     except Exception:  # noqa: BLE001
@@ -1220,6 +1227,15 @@ def check_dhg(ctx, drv, sess, case):
     if ms[0] != v1 or sorted(ms[0] + ms[1]) != v2:
         ctx.disagree(case, f"visited node sets of the directed passes differ: model {ms[0]} + {ms[1]}, "
                            f"implementation {v1[:12]} | {v2[:12]}")
+    # C11_dir_counted_sets / C11_dir_census_total: the classified node sets, each counted exactly once
+    try:
+        t, tot = ans[2].split("|")
+        mc, tot = sorted(tuple(univ[i] for i in s) for s in hgxv.dec_lists(t)), int(tot)
+    except Exception:  # noqa: BLE001
+        mc, tot = None, None
+    if mc != v2 or tot != len(v2) or sum(obs.values()) != len(v2):
+        ctx.disagree(case, f"classified node sets: model {ans[2][:200]!r}, implementation {v2[:12]} with counts adding up "
+                           f"to {sum(obs.values())}")
 
 
 # ------------------------------------------------------------------------------------------
@@ -1691,7 +1707,241 @@ class Pristine:
 # ------------------------------------------------------------------------------------------
 # steps, histories, replay
 
-KINDS = {"tables": check_tables, "undirected": check_hg, "directed": check_dhg}
+# ------------------------------------------------------------------------------------------
+# (e) the null-model arithmetic (extension round): utils.diff_sum / avg / norm_vector / directed_diff_sum /
+# directed_avg against lean/Hgxv/Model/C11Stats.lean (exact rationals; math.sqrt handed over as the exact value of
+# the float the harness computes) and against the documented formula evaluated with fractions.Fraction; plus the tail
+# of compute_motifs / compute_directed_motifs itself (`norm_delta` of a call with runs_config_model=2 recomputed from
+# that call's own 'observed' and 'config_model').
+
+STATS_TOL = 1e-12
+
+
+def gen_stats(r, i):
+    """synthetic count tables; every 5th the all-equal table (zero vector: norm_vector returns its argument)"""
+    k = r.choice([1, 2, 3, 6, 6, 12, 171])
+    R = r.choice([1, 1, 2, 3, 5, 10])
+    top = r.choice([1, 3, 10, 1000, 10 ** 6, 2 ** 40])
+    if i % 2 == 0:
+        obs = [r.choice([0, 0, r.randint(0, top)]) for _ in range(k)]
+        if i % 5 == 0:
+            nulls = [list(obs) for _ in range(R)]
+        else:
+            nulls = [[r.choice([0, o, r.randint(0, top), max(0, o + r.randint(-2, 2))]) for o in obs] for _ in range(R)]
+        return {"kind": "stats", "mode": "u", "obs": obs, "nulls": nulls}
+    keys = r.sample(range(1, 400), k + 3)
+    okeys = keys[:k]
+    obs = [[x, r.randint(1, top)] for x in okeys]
+    nulls = []
+    for _ in range(R):
+        rk = [x for x in keys if r.random() < r.choice([0.0, 0.5, 0.9])]
+        r.shuffle(rk)
+        nulls.append([[x, r.choice([1, r.randint(1, top), dict(map(tuple, obs)).get(x, 1)])] for x in rk])
+    return {"kind": "stats", "mode": "d", "obs": obs, "nulls": nulls}
+
+
+def close(x, y):
+    try:
+        return abs(float(x) - float(y)) <= STATS_TOL * max(1.0, abs(float(y)))
+    except Exception:  # noqa: BLE001
+        return False
+
+
+def exact_norm(d):
+    """norm_vector by its documentation, on exact entries -> (list of floats, exact sum of squares)"""
+    import math
+    M = sum(x * x for x in d)
+    if M == 0:
+        return [float(x) for x in d], M
+    s = math.sqrt(M)
+    return [float(x) / s for x in d], M
+
+
+def judge_vector(ctx, case, what, got, want, as_violation=True):
+    ok = isinstance(got, (list, tuple)) and len(got) == len(want) and all(close(g, w) for g, w in zip(got, want))
+    if not ok:
+        msg = f"{what}: implementation {list(got)[:6] if isinstance(got, (list, tuple)) else got!r}, expected {[float(w) for w in want][:6]}"
+        (ctx.violation if as_violation else ctx.disagree)(case, msg)
+    return ok
+
+
+def model_stats(ctx, drv, case, line, d_exact, nv_impl, d_impl):
+    """the model's diff_sum must be the exact formula; its norm_vector with the harness' square root must be what the
+    implementation returned"""
+    import math
+    from fractions import Fraction
+    ans = ask(drv, [line])[0]
+    try:
+        if case["mode"] in ("u", "real_u"):
+            dm, M = ans.split("|")
+            dm, M = hgxv.dec_list(dm), hgxv.dec_num(M)
+        else:
+            dm = hgxv.dec_list(ans)
+            M = sum(Fraction(x) * Fraction(x) for x in dm)
+    except Exception:  # noqa: BLE001
+        ctx.disagree(case, f"model answer {ans[:200]!r} to {line[:120]!r}")
+        return
+    if [Fraction(x) for x in dm] != list(d_exact) or M != sum(x * x for x in d_exact):
+        ctx.disagree(case, f"diff_sum: model {ans[:200]!r}, formula {[str(x) for x in d_exact][:6]}")
+        return
+    if not all(close(g, w) for g, w in zip(d_impl, dm)):
+        ctx.disagree(case, f"diff_sum: model {ans[:200]!r}, implementation {list(d_impl)[:6]}")
+    if nv_impl is None:
+        return
+    s = Fraction(math.sqrt(M)) if M != 0 else Fraction(0)
+    ans2 = ask(drv, [f"normvec {hgxv.enc_num(s)} {hgxv.enc_list(dm)}"])[0]
+    try:
+        nm = hgxv.dec_list(ans2)
+    except Exception:  # noqa: BLE001
+        nm = None
+    if nm is None or len(nm) != len(nv_impl) or not all(close(g, w) for g, w in zip(nv_impl, nm)):
+        ctx.disagree(case, f"norm_vector: model {ans2[:200]!r}, implementation {list(nv_impl)[:6]}")
+
+
+def stats_formula(obs, sums, R):
+    from fractions import Fraction
+    out = []
+    for o, s_ in zip(obs, sums):
+        u = Fraction(s_, R)
+        out.append((o - u) / (o + u + 4))
+    return out
+
+
+def check_stats(ctx, drv, sess, case):
+    from fractions import Fraction
+    from hypergraphx.motifs import utils
+    mode = case["mode"]
+    if mode in ("real_u", "real_d"):
+        return check_stats_real(ctx, drv, case)
+    if mode == "u":
+        obs, nulls = list(case["obs"]), [list(m) for m in case["nulls"]]
+        observed = [("class%d" % i, int(str(c))) for i, c in enumerate(obs)]
+        rounds = [[("class%d" % i, int(str(c))) for i, c in enumerate(m)] for m in nulls]
+        ctx.case(("stats", "u", tuple(obs), tuple(map(tuple, nulls))), len(set(obs)) > 1 and len(nulls) > 1, sample=case)
+        ctx.count("stats_undirected_tables")
+        st, d = guarded(utils.diff_sum, observed, rounds)
+        sums = [sum(m[i] for m in nulls) for i in range(len(obs))]
+        keysum = sums
+        line = f"diffsum {hgxv.enc_list(obs)} {hgxv.enc_lists(nulls)}"
+    else:
+        obs = [(int(k), int(c)) for k, c in case["obs"]]
+        nulls = [[(int(k), int(c)) for k, c in m] for m in case["nulls"]]
+        observed = [((("s", int(str(k))),), int(str(c))) for k, c in obs]
+        rounds = [[((("s", int(str(k))),), int(str(c))) for k, c in m] for m in nulls]
+        ctx.case(("stats", "d", tuple(obs), tuple(map(tuple, nulls))), len(obs) > 1 and len(nulls) > 1, sample=case)
+        ctx.count("stats_directed_tables")
+        st, d = guarded(utils.directed_diff_sum, observed, rounds)
+        keysum = [sum(c for m in nulls for k2, c in m if k2 == k) for k, _ in obs]
+        if any(all(k2 != k for m in nulls for k2, _ in m) for k, _ in obs):
+            ctx.count("stats_directed_tables_with_a_key_no_round_reported")
+        line = (f"ddiffsum {hgxv.enc_list([k for k, _ in obs])} {hgxv.enc_list([c for _, c in obs])} "
+                f"{hgxv.enc_lists([[k for k, _ in m] for m in nulls])} {hgxv.enc_lists([[c for _, c in m] for m in nulls])}")
+        obs = [c for _, c in obs]
+    if st != "ok":
+        ctx.violation(case, f"diff_sum on well-formed count tables failed: {d}")
+        return
+    d = list(d)
+    d_exact = stats_formula(obs, keysum, len(nulls))
+    ok = judge_vector(ctx, case, "diff_sum differs from (observed - mean) / (observed + mean + 4)", d, d_exact)
+    if ok and not all(-1 < x < 1 for x in d):
+        ctx.violation(case, f"diff_sum entry outside (-1, 1): {d[:6]}")
+    st2, nv = guarded(utils.norm_vector, list(d))
+    if st2 != "ok":
+        ctx.violation(case, f"norm_vector failed: {nv}")
+        nv = None
+    elif ok:
+        want, M = exact_norm(d_exact)
+        if M == 0:
+            ctx.count("stats_zero_vectors")
+        judge_vector(ctx, case, "norm_vector differs from a / sqrt(sum of squares) (a itself when that is 0)", list(nv), want)
+    if drv is not None and ok:
+        model_stats(ctx, drv, case, line, d_exact, None if nv is None else list(nv), d)
+
+
+def check_stats_real(ctx, drv, case):
+    """compute_motifs / compute_directed_motifs with runs_config_model=2: 'norm_delta' must be
+    norm_vector(diff_sum('observed', 'config_model')) of that very result, keys of 'observed' in order.  A call that
+    fails or is slow concludes nothing (the configuration model is not this property's business)."""
+    mode, n = case["mode"], case["n"]
+    if mode == "real_u":
+        from hypergraphx.motifs.motifs import compute_motifs as f
+        st, h = guarded(build, [tuple(e) for e in case["edges"]])
+    else:
+        from hypergraphx.motifs.directed_motifs import compute_directed_motifs as f
+        st, h = guarded(dbuild, [(tuple(e[0]), tuple(e[1])) for e in case["edges"]])
+    if st != "ok":
+        ctx.count("stats_real_failed")
+        return
+    import random
+    import numpy as np
+    keep = random.getstate(), np.random.get_state()
+    random.seed(case.get("seed", 0))            # the rounds are random: a replay must draw the same ones
+    np.random.seed(case.get("seed", 0))
+    try:
+        st, res = guarded(f, h, n, runs_config_model=2, secs=20)
+    finally:
+        random.setstate(keep[0])
+        np.random.set_state(keep[1])
+    if st != "ok":
+        ctx.count("stats_real_failed")
+        return
+    ctx.case(("stats", mode, n, repr(case["edges"])), True, sample=case)
+    ctx.count("stats_real_calls")
+    try:
+        okeys = [k for k, _ in res["observed"]]
+        obs = [int(c) for _, c in res["observed"]]
+        rounds = [[(k, int(c)) for k, c in m] for m in res["config_model"]]
+        nd = [(k, float(v)) for k, v in res["norm_delta"]]
+    except Exception as e:  # noqa: BLE001
+        ctx.violation(case, f"result of the call with runs_config_model=2 is unreadable: {e!r}")
+        return
+    if [k for k, _ in nd] != okeys or len(rounds) != 2:
+        ctx.violation(case, "'norm_delta' does not list the keys of 'observed' in order / 'config_model' has not 2 rounds")
+        return
+    if mode == "real_u":
+        if any([k for k, _ in m] != okeys for m in rounds):
+            ctx.violation(case, "a configuration-model census lists other classes than 'observed'")
+            return
+        nulls = [[c for _, c in m] for m in rounds]
+        sums = [sum(m[i] for m in nulls) for i in range(len(obs))]
+        line = f"diffsum {hgxv.enc_list(obs)} {hgxv.enc_lists(nulls)}"
+    else:
+        ids = {}
+        for k in okeys + [k for m in rounds for k, _ in m]:
+            ids.setdefault(k, len(ids) + 1)
+        sums = [sum(c for m in rounds for k2, c in m if k2 == k) for k in okeys]
+        line = (f"ddiffsum {hgxv.enc_list([ids[k] for k in okeys])} {hgxv.enc_list(obs)} "
+                f"{hgxv.enc_lists([[ids[k] for k, _ in m] for m in rounds])} {hgxv.enc_lists([[c for _, c in m] for m in rounds])}")
+    d_exact = stats_formula(obs, sums, 2)
+    want, _ = exact_norm(d_exact)
+    ok = judge_vector(ctx, case, "'norm_delta' differs from norm_vector(diff_sum('observed', 'config_model')) of the same result",
+                      [v for _, v in nd], want)
+    if drv is not None and ok and obs:
+        model_stats(ctx, drv, case, line, d_exact, [v for _, v in nd], [float(x) for x in d_exact])
+
+
+def run_stats(ctx, drv):
+    import random
+    r = random.Random(f"C11 null-model arithmetic, seed {ctx.seed}")
+    for i in range(ctx.scale(60, 1500)):
+        run_step(ctx, drv, Session(), gen_stats(r, i))
+        if out_of_time(ctx):
+            return
+    for i in range(ctx.scale(2, 16)):
+        if i % 2 == 0:
+            labels, edges = gen_hg(r, src=range(12))
+            step = {"kind": "stats", "mode": "real_u", "n": 3 if i % 4 == 0 else 4, "memo": i % 4 != 0,
+                    "seed": r.randrange(1 << 30), "edges": [list(e) for e in edges]}
+        else:
+            labels, edges = gen_dhg(r, src=range(12))
+            step = {"kind": "stats", "mode": "real_d", "n": 3 if i % 4 == 1 else 4,
+                    "seed": r.randrange(1 << 30), "edges": [[list(e[0]), list(e[1])] for e in edges]}
+        run_step(ctx, drv, Session(), step)
+        if out_of_time(ctx):
+            return
+
+
+KINDS = {"tables": check_tables, "undirected": check_hg, "directed": check_dhg, "stats": check_stats}
 
 
 def norm_step(st):
@@ -1783,6 +2033,9 @@ def run(ctx):
         boot = Session()
         for n in (3, 4):
             run_step(ctx, drv, boot, {"kind": "tables", "n": n})
+        t0 = time.time()
+        run_stats(ctx, drv)
+        ctx.count("stats_stream_ms", int(1000 * (time.time() - t0)))
         run_main(ctx, drv, pool)
         pool.drain(ctx, drv)
         if pool.started and not ctx.extra.get("pristine_processes"):
